@@ -27,12 +27,12 @@ Print Assumptions C12_ancestor_cycle.
 
 (* cycle of length 1 (finding F12, fixed): a script asking for its own target *)
 Theorem C12_self_dependency : forall fuel e me ts w,
-  e_target e = Some me -> e_unlocked e = false ->
+  e_target e = Some me -> e_unlocked e = false -> e_no_oob e = false ->
   existsb (bytes_eqb me) ts = true ->
   build (S fuel) e MIfChange ts w = Ret (w, [], 208%Z).
 Proof. exact build_self_dependency. Qed.
 Check C12_self_dependency : forall fuel e me ts w,
-  e_target e = Some me -> e_unlocked e = false ->
+  e_target e = Some me -> e_unlocked e = false -> e_no_oob e = false ->
   existsb (bytes_eqb me) ts = true ->
   build (S fuel) e MIfChange ts w = Ret (w, [], 208%Z).
 Print Assumptions C12_self_dependency.
